@@ -43,8 +43,12 @@ impl Tier {
 pub struct Plan {
     /// number of generated cases (seeded PBT)
     pub cases: u64,
-    /// maximum tape length (u32 choices)
+    /// maximum length of one tape slot (u32 choices)
     pub max_tape: usize,
+    /// number of slots: 1..=1 for flat generators; stateful generators read their header from
+    /// slot 0 and one operation from every further slot
+    pub min_slots: usize,
+    pub max_slots: usize,
     /// cases per worker process (bounds leaks of the code under test)
     pub shard_cases: u64,
     /// wall clock watchdog per shard; exceeding it is "inconclusive" (exit 2)
@@ -61,6 +65,8 @@ impl Default for Plan {
         Plan {
             cases: 100,
             max_tape: 256,
+            min_slots: 1,
+            max_slots: 1,
             shard_cases: 50,
             shard_timeout_s: 600,
             max_shrink_iters: 2000,
@@ -239,19 +245,32 @@ pub fn install_panic_hook() {
             eprintln!("[panic] thread={th} at {loc}: {msg}");
         }
         if let Ok(mut p) = PANICS.lock() {
-            if p.len() < 1000 {
-                p.push(PanicInfo {
-                    thread: th,
-                    location: loc,
-                    message: msg,
-                });
+            if p.len() >= 4000 {
+                // keep the list bounded but never refuse new entries (callers index by length:
+                // they only look at entries added after their own starting length, so a drain
+                // between their two looks can only lose attribution, not invent one)
+                p.clear();
             }
+            p.push(PanicInfo {
+                thread: th,
+                location: loc,
+                message: msg,
+            });
         }
     }));
 }
 
 pub fn take_panics() -> Vec<PanicInfo> {
     PANICS.lock().map(|mut p| std::mem::take(&mut *p)).unwrap_or_default()
+}
+
+/// The most recent panic recorded after the list had `before` entries.
+pub fn last_panic_since(before: usize) -> Option<PanicInfo> {
+    let ps = peek_panics();
+    match ps.get(before..) {
+        Some(s) => s.last().cloned(),
+        None => ps.last().cloned(), // the list was drained in between
+    }
 }
 
 pub fn peek_panics() -> Vec<PanicInfo> {
@@ -342,7 +361,7 @@ pub fn copy_dir(src: &Path, dst: &Path) -> std::io::Result<()> {
 #[derive(Clone, Debug, Default, Serialize, Deserialize)]
 pub struct KnownHit {
     pub count: u64,
-    pub tape: Vec<u32>,
+    pub tape: Vec<Vec<u32>>,
     pub message: String,
 }
 
@@ -350,7 +369,7 @@ pub struct KnownHit {
 pub struct ViolationRec {
     pub signature: String,
     pub message: String,
-    pub tape: Option<Vec<u32>>,
+    pub tape: Option<Vec<Vec<u32>>>,
     pub params: Option<Value>,
     pub sample: Value,
 }
@@ -434,23 +453,21 @@ pub fn exec_case(check: &dyn Check, tape: &mut Tape, env: &Env) -> CaseOut {
     match res {
         Ok(out) => out,
         Err(_) => {
-            let ps = peek_panics();
-            let shape = ps
-                .get(before..)
-                .and_then(|s| s.last())
-                .map(panic_shape)
-                .unwrap_or_else(|| "unknown".into());
-            let msg = ps
-                .get(before..)
-                .and_then(|s| s.last())
-                .map(|p| format!("panic at {}: {}", p.location, p.message))
-                .unwrap_or_default();
+            let last = last_panic_since(before);
+            let shape = last.as_ref().map(panic_shape).unwrap_or_else(|| "unknown".into());
+            let msg = last.map(|p| format!("panic at {}: {}", p.location, p.message)).unwrap_or_default();
             let mut out = CaseOut::default();
-            out.set_sample(json!({"tape_len": tape.data().len(), "panic": msg}));
+            out.set_sample(json!({"tape_len": tape.len(), "panic": msg}));
             out.fail(format!("{}/panic/{}", check.id(), shape), msg);
             out
         }
     }
+}
+
+const FD_PRESSURE: usize = 9000;
+
+fn open_fds() -> usize {
+    std::fs::read_dir("/proc/self/fd").map(|d| d.count()).unwrap_or(0)
 }
 
 fn shard_seed(seed: u64, id: &str, shard: u64) -> u64 {
@@ -473,7 +490,7 @@ fn run_pbt_shard(check: &dyn Check, env: &Env, cases: u64, plan: &Plan, inflight
         ..Config::default()
     };
     let mut runner = TestRunner::new(cfg);
-    let strategy = proptest::collection::vec(any::<u32>(), 0..=plan.max_tape);
+    let strategy = proptest::collection::vec(proptest::collection::vec(any::<u32>(), 0..=plan.max_tape), plan.min_slots..=plan.max_slots);
 
     struct St {
         res: ShardResult,
@@ -485,15 +502,19 @@ fn run_pbt_shard(check: &dyn Check, env: &Env, cases: u64, plan: &Plan, inflight
     });
 
     let run = runner.run(&strategy, |v| {
-        // record the case in flight so an abort can be attributed
-        {
-            let mut bytes = Vec::with_capacity(v.len() * 4);
-            for x in &v {
-                bytes.extend_from_slice(&x.to_le_bytes());
+        // The code under test leaks descriptors and threads per database open; when this worker
+        // runs low, stop executing (search: the rest of the shard is skipped and counted;
+        // shrinking: remaining candidates count as passing, so shrinking simply stops).
+        if open_fds() > FD_PRESSURE {
+            let mut s = st.borrow_mut();
+            if s.target.is_none() {
+                *s.res.counters.entry("cases_skipped_fd_pressure".into()).or_insert(0) += 1;
             }
-            let _ = std::fs::write(inflight, &bytes);
+            return Ok(());
         }
-        let mut tape = Tape::new(v.clone());
+        // record the case in flight so an abort can be attributed
+        let _ = std::fs::write(inflight, serde_json::to_vec(&v).unwrap_or_default());
+        let mut tape = Tape::new_slots(v.clone());
         let out = exec_case(check, &mut tape, env);
         let mut s = st.borrow_mut();
         let searching = s.target.is_none();
@@ -531,7 +552,7 @@ fn run_pbt_shard(check: &dyn Check, env: &Env, cases: u64, plan: &Plan, inflight
         Ok(()) => {}
         Err(TestError::Fail(_, minimal)) => {
             let target = st.target.clone().unwrap_or_default();
-            let mut tape = Tape::new(minimal.clone());
+            let mut tape = Tape::new_slots(minimal.clone());
             let out = exec_case(check, &mut tape, env);
             let f = out
                 .failures
@@ -598,10 +619,18 @@ fn run_corpus_shard(check: &dyn Check, env: &Env) -> ShardResult {
     res
 }
 
-fn replay_value(check: &dyn Check, v: &Value, env: &Env) -> (Vec<Failure>, Value, Option<Vec<u32>>, Option<Value>) {
-    if let Some(t) = v.get("tape").and_then(|t| t.as_array()) {
-        let data: Vec<u32> = t.iter().map(|x| x.as_u64().unwrap_or(0) as u32).collect();
-        let mut tape = Tape::new(data.clone());
+fn parse_tape(t: &Value) -> Option<Vec<Vec<u32>>> {
+    let arr = t.as_array()?;
+    if arr.iter().all(|x| x.is_array()) && !arr.is_empty() {
+        Some(arr.iter().map(|s| s.as_array().unwrap().iter().map(|x| x.as_u64().unwrap_or(0) as u32).collect()).collect())
+    } else {
+        Some(vec![arr.iter().map(|x| x.as_u64().unwrap_or(0) as u32).collect()])
+    }
+}
+
+fn replay_value(check: &dyn Check, v: &Value, env: &Env) -> (Vec<Failure>, Value, Option<Vec<Vec<u32>>>, Option<Value>) {
+    if let Some(data) = v.get("tape").and_then(parse_tape) {
+        let mut tape = Tape::new_slots(data.clone());
         let out = exec_case(check, &mut tape, env);
         (out.failures, out.sample, Some(data), None)
     } else if let Some(p) = v.get("params") {
@@ -610,8 +639,7 @@ fn replay_value(check: &dyn Check, v: &Value, env: &Env) -> (Vec<Failure>, Value
         let fails = match r {
             Ok(f) => f,
             Err(_) => {
-                let ps = peek_panics();
-                let shape = ps.get(before..).and_then(|s| s.last()).map(panic_shape).unwrap_or_default();
+                let shape = last_panic_since(before).as_ref().map(panic_shape).unwrap_or_default();
                 vec![Failure::new(format!("{}/panic/{}", check.id(), shape), "panic during replay")]
             }
         };
@@ -652,8 +680,7 @@ fn run_exhaustive_shard(check: &dyn Check, env: &Env, shard: u64, total: u64) ->
             }
         }
         Err(_) => {
-            let ps = peek_panics();
-            let shape = ps.get(before..).and_then(|s| s.last()).map(panic_shape).unwrap_or_default();
+            let shape = last_panic_since(before).as_ref().map(panic_shape).unwrap_or_default();
             res.violations.push(ViolationRec {
                 signature: format!("{}/panic/{}", check.id(), shape),
                 message: "panic escaped the exhaustive stage".into(),
@@ -722,7 +749,18 @@ pub fn main_entry(checks: &[&dyn Check]) -> ! {
     std::process::exit(code)
 }
 
+fn raise_fd_limit() {
+    unsafe {
+        let mut r = libc::rlimit { rlim_cur: 0, rlim_max: 0 };
+        if libc::getrlimit(libc::RLIMIT_NOFILE, &mut r) == 0 && r.rlim_cur < r.rlim_max {
+            r.rlim_cur = r.rlim_max;
+            libc::setrlimit(libc::RLIMIT_NOFILE, &r);
+        }
+    }
+}
+
 fn worker_main(checks: &[&dyn Check], a: &[String]) -> i32 {
+    raise_fd_limit();
     // --worker <ID> <tier> <seed> <kind> <shard> <n> <inflight>
     let id = &a[0];
     let tier = Tier::parse(&a[1]).unwrap();
@@ -865,7 +903,10 @@ fn orchestrate(check: &dyn Check, tier: Tier) -> i32 {
     let t0 = Instant::now();
     let id = check.id();
     let seed = seed_from_env();
-    let plan = check.plan(tier);
+    let mut plan = check.plan(tier);
+    if let Some(n) = std::env::var("VERIF_CASES").ok().and_then(|s| s.parse::<u64>().ok()) {
+        plan.cases = n; // experimentation only
+    }
     let known = Known::load();
 
     let mut queue: Vec<ShardKind> = vec![ShardKind::Corpus];
@@ -926,7 +967,7 @@ fn orchestrate(check: &dyn Check, tier: Tier) -> i32 {
                     }
                     (Some(st), _) => {
                         // abnormal exit: attribute to the case in flight
-                        let tape: Option<Vec<u32>> = std::fs::read(&r.inflight).ok().map(|b| b.chunks(4).map(|c| { let mut x = [0u8; 4]; x[..c.len()].copy_from_slice(c); u32::from_le_bytes(x) }).collect());
+                        let tape: Option<Vec<Vec<u32>>> = std::fs::read(&r.inflight).ok().and_then(|b| serde_json::from_slice(&b).ok());
                         let why = format!("worker {} died ({st}); stderr tail:\n{}", r.kind, tail(&r.stderr_path, 15));
                         let sig = format!("{id}/worker-abort");
                         if check.abort_is_violation() && tape.is_some() {
@@ -995,7 +1036,7 @@ fn orchestrate(check: &dyn Check, tier: Tier) -> i32 {
             "known_findings_observed": known_obs,
             "foreign_property_failures_seen": merged.foreign,
             "exhaustive": check.exhaustive_claim(tier),
-            "plan": {"cases": plan.cases, "max_tape": plan.max_tape, "shard_cases": plan.shard_cases, "exhaustive_shards": plan.exhaustive_shards},
+            "plan": {"cases": plan.cases, "max_tape_per_slot": plan.max_tape, "max_slots": plan.max_slots, "shard_cases": plan.shard_cases, "exhaustive_shards": plan.exhaustive_shards},
             "inconclusive": inconclusive,
         },
         "assumptions": check.assumptions(),
